@@ -302,7 +302,13 @@ func Parse(ctx context.Context, args []string, stdin io.Reader, stdout, stderr i
 	if bhv, ok := bhvs[parsedCmdStr]; ok {
 		return *bhv
 	}
-	panic("unreachable, cli parser must error on unknown commands")
+	// Anything else that parsed without error is one of the parser's own commands or flags ("help",
+	//  "--completion-bash", ...), which would have exited the process had we not disarmed `Terminate`:
+	//  it has printed its output already; there is nothing more to do.
+	return behavior{
+		parsedArgs: parsedCmdStr,
+		action:     func() error { return nil },
+	}
 }
 
 type outputController struct {
